@@ -447,6 +447,8 @@ static Plan gen_history(const string &prop, const string &cfg, uint64_t seed, lo
         case SET_ALLOW: op.v = draw_allow(w); break;
         case SETUP: if (sfrate && sim_below(&f, 100) < sfrate) op.sf = 1 + (int)sim_below(&f, 2); break;
         case IS_EMAIL: op.a = pick(w, pool); if (frate) { const Op &w0 = world[op.a]; op.f_on = w0.f_on; op.f_code = w0.f_code; op.f_buf = w0.f_buf; op.f_at = w0.f_at; }
+            // double fault: should the validation (re-)initialise the backend - after a failed conversion, say - that fails too
+            if (sfrate && sim_below(&f, 100) < sfrate / 2) op.sf = 1 + (int)sim_below(&f, 2);
             if (afrate && sim_below(&af, 100) < afrate) {
                 // a failing allocation inside this call; the object is retired afterwards, so give it a mode again
                 { static const int MF[] = { 1, 1, 1, 2, 3 }; op.mf = MF[sim_below(&af, 5)]; } p.ops.push_back(op);
@@ -653,8 +655,9 @@ struct ObjModel {
 };
 
 struct RefKey {
-    int mode, tld; long long allow; string a; bool f_on; int code, buf; int at = 1; int mf = 0;
+    int mode, tld; long long allow; string a; bool f_on; int code, buf; int at = 1; int mf = 0; int sf = 0;
     bool operator<(const RefKey &o) const {
+        if (sf != o.sf) return sf < o.sf;
         if (mf != o.mf) return mf < o.mf;
         if (at != o.at) return at < o.at;
         if (mode != o.mode) return mode < o.mode;
@@ -768,7 +771,10 @@ struct Exec {
         g_sim_tag = SIM_TAG_REF;
         poison_errno();
         int ret = 0;
-        if (!guarded_is_email(e, ap, k.a.size(), k.mf, &ret)) {
+        g_sim_ctx.sf_armed = k.sf; g_sim_ctx.sf_fired = 0;      // a backend (re-)initialisation inside the validation would fail too
+        bool ok_call = guarded_is_email(e, ap, k.a.size(), k.mf, &ret);
+        g_sim_ctx.sf_armed = 0;
+        if (!ok_call) {
             // the fresh object aborts under this fault: that is the reference outcome; the object is abandoned as it is
             g_sim_tag = SIM_TAG_NONE; g_sim_in_free = 0;
             o.aborted = true; o.alloc_fired = g_sim_af_fired != 0; if (k.mf) o.af_sig = af_signature();
@@ -890,7 +896,7 @@ struct Exec {
                     break;
                 case IS_EMAIL:
                     if (m.confirmed >= 0) {
-                        keys.push_back(RefKey{ m.confirmed, m.tld, m.allow, op.a, op.f_on, op.f_code, op.f_buf, op.f_at, op.mf });
+                        keys.push_back(RefKey{ m.confirmed, m.tld, m.allow, op.a, op.f_on, op.f_code, op.f_buf, op.f_at, op.mf, op.sf });
                         if (op.mf) { m = ObjModel(); m.rfc = def_rfc; m.tld = def_tld; m.allow = def_allow; }     // retired after the call, whatever it did
                     }
                     break;
@@ -1035,7 +1041,7 @@ struct Exec {
         } break;
         case IS_EMAIL: {
             if (m.confirmed < 0) { ST.is_email_skipped++; rec(pre + " skipped (no confirmed mode)", pre + " skipped"); break; }
-            RefKey k{ m.confirmed, m.tld, m.allow, op.a, op.f_on, op.f_code, op.f_buf, op.f_at, op.mf };
+            RefKey k{ m.confirmed, m.tld, m.allow, op.a, op.f_on, op.f_code, op.f_buf, op.f_at, op.mf, op.sf };
             if (op.f_on) ST.fault_attached++;
             if (op.mf) ST.af_attached++;
             sim_conv_begin(op.f_on, op.f_code, op.f_buf); sim_conv_at(op.f_at);
@@ -1044,7 +1050,11 @@ struct Exec {
             g_sim_tag = op.o;
             poison_errno();
             int ret = 0; Outcome o;
-            if (!guarded_is_email(e, ap, op.a.size(), op.mf, &ret)) {
+            g_sim_ctx.sf_armed = op.sf; g_sim_ctx.sf_fired = 0;
+            bool ok_call = guarded_is_email(e, ap, op.a.size(), op.mf, &ret);
+            if (op.sf) { ST.sf_attached++; if (g_sim_ctx.sf_fired) { ST.sf_fired++; any_sf_fired = true; } }
+            g_sim_ctx.sf_armed = 0;
+            if (!ok_call) {
                 g_sim_tag = SIM_TAG_NONE; g_sim_in_free = 0;
                 o.aborted = true; o.alloc_fired = g_sim_af_fired != 0; if (op.mf) o.af_sig = af_signature();
                 caller_done();
